@@ -391,6 +391,14 @@ func (f *axFunc) call(v *ssa.Call) {
 		if b.Name() == "len" && len(com.Args) == 1 {
 			f.set(v, x.sliceDim(com.Args[0].Type()))
 		}
+		if (b.Name() == "min" || b.Name() == "max") && len(com.Args) >= 2 {
+			l := f.get(com.Args[0])
+			for _, a := range com.Args[1:] {
+				f.agree("clamp", l, f.get(a), v.Pos(), "")
+				l = combine(l, f.get(a))
+			}
+			f.set(v, l)
+		}
 		return
 	}
 	callee := com.StaticCallee()
